@@ -58,9 +58,19 @@ def sortByTs (l : List (Nat × Nat)) : List (Nat × Nat) := l.foldr insertByTs [
 def pick {α : Type} (l : List α) (idxs : List Nat) : List α :=
   (l.zipIdx.filter (fun p => idxs.contains p.2)).map (·.1)
 
-/-- `on_multi_set`.  `written = none`: the bulk put succeeded; `some idxs`: it failed after
+/-- `newest_per_doc` (fix D13): of the entries of a bulk request that name one document only the
+newest stays — the last of them when several carry that newest stamp — in request order. -/
+def newest {α : Type} (ts : α → Nat) : List (Nat × α) → List (Nat × α)
+  | [] => []
+  | d :: rest =>
+    let r := newest ts rest
+    if r.any (fun e => e.1 == d.1 && decide (ts d.2 ≤ ts e.2)) then r
+    else d :: r.filter (fun e => e.1 != d.1)
+
+/-- `on_multi_set` after the request has been reduced to one entry per document (and the whole of
+the pinned handler, D13).  `written = none`: the bulk put succeeded; `some idxs`: it failed after
 writing the filtered documents at positions `idxs` and reports their ids. -/
-def onMultiSet (F : Nat) (n : Node) (src : Nat) (docs : List Doc) (written : Option (List Nat)) :
+def onMultiSetCore (F : Nat) (n : Node) (src : Nat) (docs : List Doc) (written : Option (List Nat)) :
     Node × Out :=
   let valid := docs.filter (fun d => willApply n.set d.1 d.2.1)
   let entries := sortByTs (valid.map (fun d => (d.1, d.2.1)))
@@ -75,8 +85,8 @@ def onMultiSet (F : Nat) (n : Node) (src : Nat) (docs : List Doc) (written : Opt
                 (fun s e => (insertWithSource F s src e.1 e.2).1) n.set,
        store := w.foldl storePut n.store }, .err reported)
 
-/-- `on_multi_del`. -/
-def onMultiDel (F : Nat) (n : Node) (src : Nat) (docs : List (Nat × Nat)) (written : Option (List Nat)) :
+/-- `on_multi_del` after the request has been reduced to one entry per document. -/
+def onMultiDelCore (F : Nat) (n : Node) (src : Nat) (docs : List (Nat × Nat)) (written : Option (List Nat)) :
     Node × Out :=
   let valid := docs.filter (fun d => willApply n.set d.1 d.2)
   let entries := sortByTs valid
@@ -90,6 +100,16 @@ def onMultiDel (F : Nat) (n : Node) (src : Nat) (docs : List (Nat × Nat)) (writ
     ({ set := (entries.filter (fun e => reported.contains e.1)).foldl
                 (fun s e => (deleteWithSource F s src e.1 e.2).1) n.set,
        store := w.foldl (fun ks d => storeTomb ks d.1 d.2) n.store }, .err reported)
+
+/-- `on_multi_set`: only the newest entry of every document is filtered, stored and recorded. -/
+def onMultiSet (F : Nat) (n : Node) (src : Nat) (docs : List Doc) (written : Option (List Nat)) :
+    Node × Out :=
+  onMultiSetCore F n src (newest (fun (v : Nat × List Nat) => v.1) docs) written
+
+/-- `on_multi_del`. -/
+def onMultiDel (F : Nat) (n : Node) (src : Nat) (docs : List (Nat × Nat)) (written : Option (List Nat)) :
+    Node × Out :=
+  onMultiDelCore F n src (newest (fun (t : Nat) => t) docs) written
 
 /-- `on_purge_tombstones`.  `removed = none`: `remove_tombstones` succeeded; `some idxs`: it failed
 after removing the purged keys at positions `idxs` (reported); the others are re-added to the set. -/
